@@ -1,7 +1,7 @@
 #!/usr/bin/env python3
 """Renders the sensitivity matrices (written by tools/mutants.py --out) as markdown tables and
 annotates /verif/seeded/<id>/meta.json with what I confirmed and which checks catch the change.
-usage: tools/mktables.py <seeded_matrix.json> [<hand_matrix.json>] [<benign_matrix.json>]
+usage: tools/mktables.py <seeded_matrix.json>[,<more seeded matrices>...] [<hand_matrix.json>] [<benign_matrix.json>]
 """
 import json, os, sys
 
@@ -11,7 +11,10 @@ def caught(res):
     return [c for c, x in sorted(res.items()) if x[0] == 1], [c for c, x in sorted(res.items()) if x[0] not in (0, 1)]
 
 def main():
-    seeded = json.load(open(sys.argv[1]))
+    seeded = []
+    for f in sys.argv[1].split(","):
+        seeded += json.load(open(f))
+    seeded.sort(key=lambda r: r["mutant"])
     print("| change | breaks | needs, in order to manifest | caught by (quick tier, 1/4 of the runs) |")
     print("|---|---|---|---|")
     for row in seeded:
